@@ -21,8 +21,75 @@ thread_local! {
 
 pub static TOTAL_ALLOCS: AtomicUsize = AtomicUsize::new(0);
 
+// ---------------------------------------------------------------------------
+// arena mode: while a cache's pages are mapped read-only (C19 guard) and the
+// operation under test allocates (clone), its allocations must not land in -
+// or touch allocator metadata in - the protected pages. They are served from a
+// private bump arena instead; arena memory is never reused, freeing it is a no-op.
+
+const ARENA_BYTES: usize = 1 << 30;
+
+static ARENA_BASE: AtomicUsize = AtomicUsize::new(0);
+static ARENA_NEXT: AtomicUsize = AtomicUsize::new(0);
+
+thread_local! {
+    static ARENA_ON: Cell<bool> = const { Cell::new(false) };
+}
+
+fn in_arena(p: *mut u8) -> bool {
+    let base = ARENA_BASE.load(Ordering::Relaxed);
+    base != 0 && (p as usize) >= base && (p as usize) < base + ARENA_BYTES
+}
+
+unsafe fn arena_alloc(layout: Layout) -> *mut u8 {
+    let base = ARENA_BASE.load(Ordering::Relaxed);
+    if base == 0 {
+        return std::ptr::null_mut();
+    }
+    let align = layout.align().max(16);
+    loop {
+        let cur = ARENA_NEXT.load(Ordering::Relaxed);
+        let start = (base + cur + align - 1) & !(align - 1);
+        let end = start + layout.size().max(1);
+        if end > base + ARENA_BYTES {
+            return std::ptr::null_mut();
+        }
+        if ARENA_NEXT.compare_exchange(cur, end - base, Ordering::Relaxed, Ordering::Relaxed).is_ok() {
+            return start as *mut u8;
+        }
+    }
+}
+
+/// Maps the arena (once) and turns arena mode on for this thread; false if the arena is not
+/// available or has less than `need` bytes left.
+pub fn arena_on(need: usize) -> bool {
+    if ARENA_BASE.load(Ordering::Relaxed) == 0 {
+        let p = unsafe {
+            libc::mmap(std::ptr::null_mut(), ARENA_BYTES, libc::PROT_READ | libc::PROT_WRITE,
+                libc::MAP_PRIVATE | libc::MAP_ANONYMOUS | libc::MAP_NORESERVE, -1, 0)
+        };
+        if p == libc::MAP_FAILED {
+            return false;
+        }
+        ARENA_BASE.store(p as usize, Ordering::Relaxed);
+    }
+    if ARENA_NEXT.load(Ordering::Relaxed) + need > ARENA_BYTES {
+        return false;
+    }
+    ARENA_ON.with(|a| a.set(true));
+    true
+}
+
+pub fn arena_off() {
+    ARENA_ON.with(|a| a.set(false));
+}
+
 unsafe impl GlobalAlloc for CountingAlloc {
     unsafe fn alloc(&self, layout: Layout) -> *mut u8 {
+        if ARENA_ON.try_with(|a| a.get()).unwrap_or(false) {
+            return arena_alloc(layout);
+        }
+
         let refuse = REFUSE_FROM.try_with(|r| r.get()).unwrap_or(0);
 
         if refuse > 0 && layout.size() >= refuse {
@@ -56,6 +123,10 @@ unsafe impl GlobalAlloc for CountingAlloc {
     }
 
     unsafe fn dealloc(&self, ptr: *mut u8, layout: Layout) {
+        if in_arena(ptr) {
+            return;
+        }
+
         let _ = TRACK.try_with(|t| {
             if t.get() {
                 let _ = LIVE.try_with(|l| l.set(l.get() - layout.size() as isize));
@@ -65,6 +136,15 @@ unsafe impl GlobalAlloc for CountingAlloc {
     }
 
     unsafe fn realloc(&self, ptr: *mut u8, layout: Layout, new_size: usize) -> *mut u8 {
+        if in_arena(ptr) || ARENA_ON.try_with(|a| a.get()).unwrap_or(false) {
+            let new = self.alloc(Layout::from_size_align_unchecked(new_size, layout.align()));
+            if !new.is_null() {
+                std::ptr::copy_nonoverlapping(ptr, new, layout.size().min(new_size));
+                self.dealloc(ptr, layout);
+            }
+            return new;
+        }
+
         let refuse = REFUSE_FROM.try_with(|r| r.get()).unwrap_or(0);
 
         if refuse > 0 && new_size >= refuse {
